@@ -77,35 +77,35 @@ def canonicalize_url(
             path = "/"
 
     # Quotes
+    # NOTE: in quoted mode, escapes of characters that need none are dropped
+    # first, so that both modes describe the same canonical url
     if user:
+        user = safely_unquote_auth_item(user)
+
         if quoted:
             user = safely_quote(user)
-        else:
-            user = safely_unquote_auth_item(user)
 
     if password:
+        password = safely_unquote_auth_item(password)
+
         if quoted:
             password = safely_quote(password)
-        else:
-            password = safely_unquote_auth_item(password)
 
     if quoted:
         path = safely_quote(path)
 
-    qsl = safe_qsl_iter(query)
+    qsl = safely_unquote_qsl(safe_qsl_iter(query))
 
     if quoted:
         qsl = safely_quote_qsl(qsl)
-    else:
-        qsl = safely_unquote_qsl(qsl)
 
     query = safe_serialize_qsl(qsl)
 
     if fragment:
+        fragment = safely_unquote_fragment(fragment)
+
         if quoted:
             fragment = safely_quote(fragment)
-        else:
-            fragment = safely_unquote_fragment(fragment)
 
     # Repacking
     netloc = unsplit_netloc(user, password, hostname, port)
